@@ -39,8 +39,9 @@ def parseInt (s : String) : Option Int :=
 def parseVol (i : Nat) (s : String) : Option Vol :=
   match s.toList with
   | [a, b] =>
-    if (a = 'w' ∨ a = 'r') ∧ (b = 's' ∨ b = 'n') then
-      some { id := i, ro := a = 'r', blocks := fun _ => none, trash := [] }
+    -- 'r' = Volumes.*.ReadOnly, 'a' = read-only through AccessViaHosts: both make the MOUNT read-only
+    if (a = 'w' ∨ a = 'r' ∨ a = 'a') ∧ (b = 's' ∨ b = 'n') then
+      some { id := i, ro := a ≠ 'w', blocks := fun _ => none, trash := [] }
     else none
   | _ => none
 
@@ -87,7 +88,7 @@ def parseOp (s : St) (op : String) : Option (Op × Bool) :=
       else if k = "touch" then some (.touch hi, true)
       else if k = "utouch" then some (.unauth 1, true)
       else if k = "get" then some (.get hi, true)
-      else if k = "del" then some (.delete hi, true)
+      else if k = "del" ∨ k = "ndel" ∨ k = "odel" then some (.delete hi, true)
       else if k = "udel" then some (.unauth 0, true)
       else if k = "untrash" then some (.untrash hi, true)
       else if k = "uuntrash" then some (.unauth 1, true)
@@ -123,13 +124,32 @@ def listing (s : St) : String :=
   let hs := List.range 8
   let vols := s.vols.map fun v =>
     let bl := hs.filterMap fun h => (v.blocks h).map fun f =>
-      s!"h{h}:{if f.good then "g" else "c"}:{(s.now - f.mtime) / U}"
+      s!"h{h}:{if f.good then "g" else "c"}:{(s.now - f.mtime + U / 4) / U}"
     let tr := v.trash.map fun e =>
       let rem : Int := ((e.deadline : Int) - (s.now : Int) + (3 * U / 4 : Nat)).fdiv U
-      s!"h{e.hash}.T{rem}:{if e.file.good then "g" else "c"}:{(s.now - e.file.mtime) / U}"
+      s!"h{e.hash}.T{rem}:{if e.file.good then "g" else "c"}:{(s.now - e.file.mtime + U / 4) / U}"
     let all := sortStrings (bl ++ tr)
     if all.isEmpty then "-" else ",".intercalate all
   "/".intercalate vols
+
+/-- ndel / odel: the Go driver first gives every copy of the hash an age one tick (half a second)
+below / above the TTL, then sends the DELETE -/
+def restamp (s : St) (hi : Nat) (m : Nat) : St :=
+  { s with vols := s.vols.map (fun v =>
+      match v.blocks hi with
+      | some f => v.setBlock hi (some { good := f.good, mtime := m })
+      | none => v) }
+
+def prestamp (c : Cfg) (s : St) (o : String) : St :=
+  match o.splitOn ":" with
+  | [k, h] =>
+    match parseHash h with
+    | some hi =>
+      if k = "ndel" then restamp s hi (s.now - c.ttl + 1)
+      else if k = "odel" then restamp s hi (s.now - c.ttl - 1)
+      else s
+    | none => s
+  | _ => s
 
 partial def runOps (c : Cfg) (s : St) (ops : List String) (acc snaps : List String) :
     Option (List String × List String) :=
@@ -139,6 +159,7 @@ partial def runOps (c : Cfg) (s : St) (ops : List String) (acc snaps : List Stri
     match parseOp s o with
     | none => none
     | some (op, auto) =>
+      let s := prestamp c s o
       let (s1, r) := step c s op
       -- `ti` goes through PUT /trash, which always answers 200
       let shown := match op with | .trashItem .. => "200" | _ => showRes r
